@@ -50,7 +50,7 @@ RAC_FOR_FUNCTION = {
     'run_on_chunk': ['pattern_contract'],
     'P::find_all_matches': ['pattern_contract'],
 }
-for _f in ('lex_regexish', 'lex_long_decade', 'lex_plural_digit', 'lex_quote', 'lex_punctuation', 'lex_catch', 'lex_word'):
+for _f in ('lex_regexish', 'lex_long_decade', 'lex_plural_digit', 'lex_quote', 'lex_punctuation', 'lex_catch', 'lex_word', 'lex_tabs', 'lex_spaces', 'lex_newlines'):
     RAC_FOR_FUNCTION[_f] = ['lexers', 'plain_english_tiles']
 for _t in ('Invert', 'SequencePattern', 'RepeatingPattern', 'EitherPattern', 'All', 'AnyPattern', 'ConsumesRemainingPattern', 'NominalPhrase',
            'ExactPhrase', 'IndefiniteArticle', 'PatternMap'):
@@ -93,5 +93,5 @@ UNIT_RAC = {
     'patterns': ['pattern_contract'],
     'merged_dictionary': ['merged_union'],
 }
-for _f in ('condense_spaces', 'condense_newlines', 'condense_dotted_initialisms', 'condense_number_suffixes', 'condense_indices', 'get_span_content'):
+for _f in ('condense_spaces', 'condense_newlines', 'condense_dotted_initialisms', 'condense_number_suffixes', 'condense_indices', 'get_span_content', 'match_quotes', 'newlines_to_breaks'):
     RAC_FOR_FUNCTION['Document::' + _f] = ['document_tiles', 'condense_indices']
